@@ -334,14 +334,23 @@ class MeasuredParameter(sympy.Symbol):
     """
 
     def __new__(cls, regref):
-        # sympy.Basic.__new__ wants a name, other arguments must not end up in self._args
-        return super().__new__(cls, "q" + str(regref.ind))
+        # sympy.Basic.__new__ wants a name, other arguments must not end up in self._args.
+        # The sympy symbol cache is bypassed: it returns one shared instance per name, whose
+        # regref would be overwritten by every other Program using the same subsystem index.
+        obj = sympy.Symbol.__xnew__(cls, "q" + str(regref.ind))
+        obj.regref = regref
+        return obj
 
     def __init__(self, regref):
         if not regref.active:
             raise ValueError("Trying to use an inactive RegRef.")
         #: RegRef: the value of the parameter depends on this RegRef, and can only be evaluated after the corresponding subsystem has been measured
         self.regref = regref
+
+    def _hashable_content(self):
+        # measured parameters of different RegRef objects (i.e., different Programs) are different
+        # symbols, also for the expression cache of sympy
+        return super()._hashable_content() + (id(self.regref),)
 
     def _sympystr(self, printer):
         """Blackbird notation.
